@@ -30,7 +30,7 @@ CHECKS = {
             'explicit-state BFS over operation histories of the real code with a differential (twin-world) oracle',
             BASE_NOTE),
     'C03': ('model_checking', 'DESIGN.md §3 C03, Appendix A',
-            'Every program up to the depth bound over six complete slices of watcher configurations (ordering/lifecycle, one-shot watchers that unwatch themselves inside the callback, changes-only '
+            'Every program up to the depth bound over nine complete slices of watcher configurations (ordering/lifecycle incl. refused registrations, one-shot value and slot watchers that unwatch themselves inside the callback, an instance following a changing class default with and without its own Parameter copy, base class + subclass with its own Parameter copies, changes-only '
             'filtering over a 22-value equality domain incl. 1/True/1.0/NaN/equal containers/dates/sets, queued and non-queued cascades, '
             'slot watchers, class-level watchers) is executed on the real dispatcher; the trace recorded by the callbacks is checked for '
             'inclusion in a reference dispatcher written from the statement (exactly-once, order, old/new identity, type, value visible at entry, depth-first cascades).',
@@ -46,28 +46,28 @@ CHECKS = {
             'For every token program up to the length bound, every subset (<= F) of watcher invocations is made to raise, and rejected update keys '
             'and raising context bodies occur at every position; after each faulty run the survivor must (i) never run a watcher while a surviving '
             'batch is open, (ii) have announced what a rejected update applied, (iii) hold nothing queued once no batch is open, (iv) answer a fixed probe '
-            '(starting with an unrelated assignment) exactly like a freshly built twin; five watcher configurations incl. queued cascades.',
+            '(starting with an unrelated assignment) exactly like a freshly built twin, (v) leave the class outside any batch; six watcher configurations incl. queued cascades and a watcher that fires the Event.',
             'exhaustive fault enumeration (positions x programs) with a differential probe against a fresh twin',
             BASE_NOTE),
     'C06': ('model_checking', 'DESIGN.md §3 C06',
             'Every hierarchy (single class, chains of 2 and 3, diamond, helper-method overrides, function form) x every declaration of the '
             'dependent method at every level (absent / plain override / watch / on_init / queued over 7 dependency sets incl. slot specs and helper '
-            'methods) is built as a real class; every program up to the length bound (sets, same-value sets, update, batches, slot assignment, '
+            'methods; also declared on a plain mixin base, raising param.Skip, next to a second dependent method) is built as a real class; every program up to the length bound (sets, same-value sets, update, batches, slot assignment, '
             'update inside a batch) is run on a fresh instance and the invocation count after each step compared with an MRO-based resolver; '
             'method_dependencies() must agree with the resolver.',
             'exhaustive enumeration of class hierarchies x operation programs on the real code vs. an independent MRO-based resolver',
             BASE_NOTE),
     'C07': ('model_checking', 'DESIGN.md §3 C07',
-            'For every single dependency path (a.x, a.y, a.b.x, a.b.y, a.param, x, c.y, a.b.c.x), every path combined with an own parameter, every pair of the six sub-object paths, one triple and two methods sharing sub-objects, BFS over '
-            'attach / replace / detach at both levels and leaf assignments on attached and detached objects (incl. falsy container-like objects); '
+            'For every single dependency path (a.x, a.y, a.b.x, a.b.y, a.param, a.b.param, x, c.y, a.b.c.x), the sub-object itself next to a path through it, every path combined with an own parameter, every pair of the six sub-object paths, one triple and two methods sharing sub-objects, BFS over '
+            'attach / replace / detach at both levels and leaf assignments on attached and detached objects (incl. falsy container-like objects and objects with a value-based __eq__); '
             'after every step the invocation count must match an object-graph model that uses only the values reached through the declared paths, and no '
             'object off the current paths may carry a watcher for the parent.',
             'explicit-state BFS over operation histories of real object graphs vs. an object-graph reference model',
             BASE_NOTE),
     'C08': ('model_checking', 'DESIGN.md §3 C08',
             'BFS over link / relink / override / source and rx-root updates / update contexts (keyword and positional) / multi-key update for '
-            'reference kinds Parameter, bind of 1 and 2 parameters, depends method, rx over a Parameter, rx root, list and dict containing a Parameter '
-            '(nested_refs), with links made in the constructor or later, plus a bounded Number target whose source may take invalid values; after '
+            'reference kinds Parameter, bind of 1 and 2 parameters, depends method, rx over a Parameter, rx root, list, dict and set containing a Parameter '
+            '(nested_refs), param.trigger on linked parameters, batched updates of two parameters of one source, a target without per-instance Parameter, with links made in the constructor or later, plus a bounded Number target whose source may take invalid values; after '
             'every step each target parameter must equal the model\'s own evaluation of its live link (or its last plain value) and each source '
             'parameter must carry exactly one sync watcher of the target iff a live link depends on it.',
             'explicit-state BFS over operation histories of the real code vs. a reference model of live links',
@@ -118,8 +118,10 @@ CHECKS = {
             'explicit-state BFS with an invariant over all classes and instances (no reference model other than Python attribute lookup)',
             BASE_NOTE),
     'C14': ('model_checking', 'DESIGN.md §3 C14',
-            'Five slices (ordinary Parameters, per_instance=False, no_instance_params, a constant with allow_refs and two reference sources, assignments attempted '
-            'inside watcher / depends callbacks started by a set or by param.trigger): BFS over instance sets of a constant (new object / the identical object), of a read-only parameter and of name, single-key update, class-level '
+            'Eight kinds of slice (ordinary Parameters, per_instance=False, no_instance_params, a constant and a read-only parameter with allow_refs and two reference sources '
+            'incl. a reference that skips and watchers running during a reference sync, assignments attempted '
+            'inside watcher / depends callbacks started by a set or by param.trigger, a class overriding the default of name, watchers of the constant attribute that raise, '
+            'instances created while a block is open; plus param.Time changing its own constant time_type): BFS over instance sets of a constant (new object / the identical object), of a read-only parameter and of name, single-key update, class-level '
             'sets on the declaring class and on a subclass, nested and failing edit_constant blocks on either of two instances or on the class, leaving several blocks at once, and creation of per-instance '
             'Parameter copies; after every step the identity held by every constant (incl. one whose default is None), read-only and name parameter and the '
             'class defaults are compared with the model, and whenever no edit block is open every constant flag on class and instance Parameter objects must be True.',
@@ -157,7 +159,7 @@ CHECKS = {
     'C17': ('model_checking', 'DESIGN.md §3 C17',
             'Every pre-copy history of length <= 2 (sets, update, in-place mutation, per-instance Parameter edits incl. Selector objects of dict and '
             'OrderedDict kind, sub-object attachment, user watchers bound to the instance with precedences, ordinary attributes incl. one stored in the '
-            'class\'s own __slots__, also holding None; a subclass with a depends(\'sub.x\', watch=True) method over every pre-history that attaches the sub-object) x copy mechanism (deepcopy, pickle protocols 2 and 5; thorough 0-5) x every post-copy history of length <= 2 applied '
+            'class\'s own __slots__, also holding None; a subclass with a depends(\'sub.x\', watch=True) method over every pre-history that attaches the sub-object; copies taken while a batch / discard block is open) x copy mechanism (deepcopy, pickle protocols 2 and 5; thorough 0-5) x every post-copy history of length <= 2 applied '
             'to the original or the copy is executed: the copy must succeed, equal the original (values, per-instance Parameter attributes, ordinary '
             'attributes), share no mutable object (identity walk), every later operation must leave the other side\'s snapshot and the class-level state '
             'untouched, dependent methods fire exactly once on the side operated on and user watchers run bound to that side in precedence order.',
